@@ -1,6 +1,7 @@
 mod abs;
 mod core;
 mod rec;
+mod repl;
 mod vstore;
 
 fn main() {
@@ -14,6 +15,7 @@ fn main() {
     match args[1].as_str() {
         "abs" => abs::run(&args[2..]),
         "replay" => abs::run_replay(&args[2..]),
+        "repl" => repl::run(&args[2..]),
         x => {
             eprintln!("unknown subcommand {x}");
             std::process::exit(2);
